@@ -82,6 +82,15 @@ def call(eng, e, st, fr, k):
     # 5. method on an evaluated receiver
     if isinstance(e.func, ast.Attribute):
         def with_recv(recv, s0):
+            if isinstance(recv, dict) and e.func.attr == "update" and isinstance(e.func.value, (ast.Name, ast.Attribute)):
+                # d.update(other) on a literal dict held by value: rebind the location to the merged dict
+                def merged(a, kw, s):
+                    other = a[0] if a else {}
+                    if not isinstance(other, dict):
+                        raise Unsupported("dict.update with a non-literal dict")
+                    new = {**recv, **other, **kw}
+                    return eng.assign(e.func.value, new, s, fr, lambda s2: k(PNONE, s2), e)
+                return eval_args(eng, e, s0, fr, merged)
             kind = value_kind(recv)
             m = METHODS.get((kind, e.func.attr))
             if m is None and isinstance(recv, Ref) and recv.kind == "obj":
@@ -460,7 +469,12 @@ def _isinstance(eng, a, kw, st, fr, k, node):
         return k(z3.BoolVal(any(n.split(".")[-1] == cls_name for n in names)), st)
     if isinstance(v, Opq):
         f = z3.Function("isinstance:" + key, V, z3.BoolSort())
-        return k(f(v.t), st)
+        r = f(v.t)
+        if all(n in ("int", "np.integer", "numbers.Integral") for n in names):
+            # an instance of an integer type is an integer value (and not None)
+            from .engine import int2v
+            st = st.assume(z3.Implies(r, z3.And(v.t == int2v(v2int(v.t)), v.t != NONE)))
+        return k(r, st)
     raise Unsupported(f"isinstance of {type(v).__name__}")
 
 
